@@ -367,6 +367,7 @@ macro_rules! gen_exec1 {
                 Call::Cow => Outcome::skip("cow on a slot without shared storage"),
                 Call::Sibling { .. } => Outcome::skip("sibling on a slot whose storage cannot be shared"),
                 Call::PrivBuild | Call::PrivQuery { .. } | Call::PrivSend | Call::PrivReap => Outcome::skip("thread-affinity operations are executed by engine A itself"),
+                Call::Repeat { .. } => Outcome::skip("repetition is unrolled by `exec`"),
             }
         }
     };
@@ -516,6 +517,7 @@ macro_rules! gen_exec2 {
                 Call::Cow => Outcome::skip("cow on a slot without shared storage"),
                 Call::Sibling { .. } => Outcome::skip("sibling on a slot whose storage cannot be shared"),
                 Call::PrivBuild | Call::PrivQuery { .. } | Call::PrivSend | Call::PrivReap => Outcome::skip("thread-affinity operations are executed by engine A itself"),
+                Call::Repeat { .. } => Outcome::skip("repetition is unrolled by `exec`"),
             }
         }
     };
@@ -824,6 +826,7 @@ impl_slot2!(IxDyn, exec2_dyn);
 /// the query elements of a call as the stub will see them
 pub fn query_of(call: &Call) -> Vec<(u64, u64)> {
     match call {
+        Call::Repeat { inner, .. } | Call::PrivQuery { inner } => query_of(inner),
         Call::Scalar { x, y } | Call::Interp { x, y } | Call::InterpInto { x, y, .. } => vec![(canon(x.bits()), canon(y.bits()))],
         Call::Array { q } | Call::ArrayInto { q, .. } => {
             if q.ys.is_empty() {
@@ -856,7 +859,20 @@ pub fn exec(slot: &dyn Slot, op: &Op) -> Outcome {
     if unsupervised {
         crate::watch::begin(op.plan.iter().any(|a| matches!(a, Act::Nest { .. })));
     }
-    let mut out = slot.call(&op.call);
+    let mut out = match &op.call {
+        Call::Repeat { inner, times } => {
+            let first = slot.call(inner);
+            let mut last = first.clone();
+            for _ in 1..*times {
+                last = slot.call(inner);
+                if !last.same_answer(&first) {
+                    break;
+                }
+            }
+            last
+        }
+        _ => slot.call(&op.call),
+    };
     if unsupervised {
         crate::watch::end();
     }
